@@ -12,6 +12,7 @@ access on model objects, calls of model constructors, assignment, if/elif/else, 
 Anything else -> Unfoldable (the caller turns that into "unrecognised construct", never into a verdict).
 """
 import ast
+import copy
 import operator
 
 from .astutil import dotted, enum_member
@@ -207,6 +208,24 @@ class Folder:
             v = genv[name]
         self._globals[name] = v
         return v
+
+    @staticmethod
+    def new_object(cls, bases=()):
+        """a model instance of the class: fields are set by folding its methods; properties (getter / setter) and methods come from the class
+        body (own definitions first, then the given base classes)"""
+        props, meths = {}, {}
+        for c in list(bases)[::-1] + [cls]:
+            for f in c.body:
+                if not isinstance(f, ast.FunctionDef):
+                    continue
+                decs = [dotted(d) or '' for d in f.decorator_list]
+                if 'property' in decs:
+                    props[f.name] = (f, props.get(f.name, (None, None))[1])
+                elif any(d.endswith('.setter') for d in decs):
+                    props[f.name] = (props.get(f.name, (None, None))[0], f)
+                elif not decs:
+                    meths[f.name] = f
+        return {'__attrs__': (), '__props__': props, '__methods__': meths, '__class__': cls.name}
 
     def call_function(self, fn, args, kw):
         a = fn.args
@@ -410,8 +429,15 @@ class Folder:
                 return Enum(b.name, e.attr)
             if isinstance(b, (Version, Enum)) and hasattr(b, e.attr) and not e.attr.startswith('_'):
                 return getattr(b, e.attr)
+            if isinstance(b, dict) and e.attr in b.get('__props__', ()):
+                getter = b['__props__'][e.attr][0]
+                if getter is None:
+                    raise Raised('AttributeError', e)
+                return self.call_method(getter, b, [], {})
             if isinstance(b, dict) and e.attr in b.get('__attrs__', ()):
                 return b[e.attr]
+            if isinstance(b, dict) and '__methods__' in b:
+                raise Raised('AttributeError', e)
             raise Unfoldable('attribute %s of %r' % (e.attr, b))
         if isinstance(e, (ast.ListComp, ast.GeneratorExp, ast.SetComp)):
             out = []
@@ -467,7 +493,7 @@ class Folder:
                 fv = None
             if isinstance(fv, ast.FunctionDef):
                 return self.call_function(fv, args, kw)
-        if isinstance(e.func, ast.Name) and e.func.id in FUNCS and e.func.id not in env:
+        if isinstance(e.func, ast.Name) and e.func.id in FUNCS and e.func.id not in env and not (e.func.id == 'len' and len(args) == 1 and isinstance(args[0], dict) and '__methods__' in args[0]):
             if e.func.id == 'isinstance':
                 v_, c_ = args
                 cs_ = c_ if isinstance(c_, tuple) else (c_,)
@@ -488,9 +514,15 @@ class Folder:
                 return FUNCS[e.func.id](*args, **kw)
             except (ValueError, TypeError) as ex:
                 raise Raised(type(ex).__name__, e)
+        if isinstance(e.func, ast.Name) and e.func.id == 'len' and e.func.id not in env and len(args) == 1 and isinstance(args[0], dict) and '__methods__' in args[0]:
+            if '__len__' not in args[0]['__methods__']:
+                raise Raised('TypeError', e)
+            return self.call_method(args[0]['__methods__']['__len__'], args[0], [], {})
         if isinstance(e.func, ast.Attribute):
             recv = self.ev(e.func.value, env)
             m = e.func.attr
+            if isinstance(recv, dict) and m in recv.get('__methods__', ()):
+                return self.call_method(recv['__methods__'][m], recv, args, kw)
             if isinstance(recv, (SymInt, AbsStr)) and hasattr(recv, 'm_' + m):
                 return getattr(recv, 'm_' + m)(*args, **kw)
             if isinstance(recv, str) and m == 'format' and any(isinstance(x, (SymInt, AbsNum, AbsStr)) for x in list(args) + list(kw.values())):
@@ -587,7 +619,12 @@ class Folder:
                 raise Unfoldable('item store on %r' % (b,))
         elif isinstance(t, ast.Attribute):
             b = self.ev(t.value, env)
-            if isinstance(b, dict) and '__attrs__' in b:
+            if isinstance(b, dict) and t.attr in b.get('__props__', ()):
+                setter = b['__props__'][t.attr][1]
+                if setter is None:
+                    raise Raised('AttributeError', t)
+                self.call_method(setter, b, [v], {})
+            elif isinstance(b, dict) and '__attrs__' in b:
                 b[t.attr] = v
                 b['__attrs__'] = tuple(b['__attrs__']) + ((t.attr,) if t.attr not in b['__attrs__'] else ())
             else:
@@ -612,6 +649,17 @@ class Folder:
                     raise Unfoldable('free name %s' % s.target.id)
                 a_, b_ = env[s.target.id], self.ev(s.value, env)
                 env[s.target.id] = AbsNum() if isinstance(a_, (SymInt, AbsNum)) or isinstance(b_, (SymInt, AbsNum)) else BIN[type(s.op)](a_, b_)
+            elif isinstance(s, ast.AugAssign) and isinstance(s.target, (ast.Attribute, ast.Subscript)) and type(s.op) in BIN:
+                load = copy.copy(s.target)
+                load.ctx = ast.Load()
+                a_, b_ = self.ev(load, env), self.ev(s.value, env)
+                if isinstance(a_, (SymInt, AbsNum)) or isinstance(b_, (SymInt, AbsNum)):
+                    self.bind(s.target, AbsNum(), env)
+                else:
+                    try:
+                        self.bind(s.target, BIN[type(s.op)](a_, b_), env)
+                    except TypeError:
+                        raise Unfoldable('operands of augmented assignment')
             elif isinstance(s, ast.If):
                 r = self.run(s.body if self.ev(s.test, env) else s.orelse, env)
                 if r[0] != 'fall':
@@ -837,6 +885,79 @@ class AbsBytes(AbsStr):
 
     def m_hex(self):
         return AbsStr(2 * self.n)
+
+
+class WinBytes:
+    """A byte string known as a sequence of windows into named origins: ((origin, lo, hi), ...).  Slicing cuts windows, concatenation
+    joins them (adjacent windows of one origin merge), the content is never looked at.  Enough to decide *which* bytes of its input a
+    stream hands out and keeps, for every length and request size, whatever the representation of the stream."""
+    kind = 'bytes'
+
+    def __init__(self, segs=()):
+        out = []
+        for o, lo, hi in segs:
+            if hi <= lo:
+                continue
+            if out and out[-1][0] == o and out[-1][2] == lo:
+                out[-1] = (o, out[-1][1], hi)
+            else:
+                out.append((o, lo, hi))
+        self.segs = tuple(out)
+
+    @classmethod
+    def of(cls, origin, n):
+        return cls(((origin, 0, n),))
+
+    def __len__(self):
+        return sum(hi - lo for _, lo, hi in self.segs)
+
+    def __bool__(self):
+        return len(self) > 0
+
+    def __eq__(self, o):
+        if isinstance(o, (bytes, bytearray)) and len(o) == 0:
+            return len(self) == 0
+        return isinstance(o, WinBytes) and self.segs == o.segs
+
+    def __ne__(self, o):
+        return not self.__eq__(o)
+
+    def __hash__(self):
+        return hash(self.segs)
+
+    def __add__(self, o):
+        if isinstance(o, WinBytes):
+            return WinBytes(self.segs + o.segs)
+        if isinstance(o, (bytes, bytearray)) and len(o) == 0:
+            return self
+        raise Unfoldable('concatenation of a window with concrete bytes')
+
+    def __radd__(self, o):
+        if isinstance(o, (bytes, bytearray)) and len(o) == 0:
+            return self
+        raise Unfoldable('concatenation of concrete bytes with a window')
+
+    def __getitem__(self, k):
+        if not isinstance(k, slice):
+            raise Unfoldable('single byte of a window')
+        start, stop, step = k.indices(len(self))
+        if step != 1:
+            raise Unfoldable('stepped slice of a window')
+        out = []
+        pos = 0
+        for o, lo, hi in self.segs:
+            n = hi - lo
+            a, b = max(start, pos), min(stop, pos + n)
+            if a < b:
+                out.append((o, lo + a - pos, lo + b - pos))
+            pos += n
+        return WinBytes(out)
+
+    def __iter__(self):
+        raise Unfoldable('iteration over a window')
+
+    def __repr__(self):
+        return 'Win[%s]' % ', '.join('%s[%d:%d]' % x for x in self.segs) if self.segs else "Win[]"
 
 
 def length_models():
